@@ -277,8 +277,24 @@ def check(prog, run):
 
     # ---- V5 map_and_filter
     r = run.rule("V5", "map_and_filter keeps order, applies the function once per element and drops exactly the None results", 1)
-    maf = prog.get_func("py_gql._utils", "map_and_filter")
+    used = set()
+    for name, m in visitor.methods.items():
+        for n in own_nodes(m.node):
+            if isinstance(n, ast.Call) and isinstance(n.func, ast.Name) and n.func.id == "map_and_filter":
+                for callee in prog.resolve_call(m, n):
+                    used.add(callee)
+    shapes.require(len(used) == 1, "C18.V5: the visitor's map_and_filter does not resolve to exactly one function (%s)" % sorted(x.key for x in used))
+    maf = used.pop()
     run.looked_at(maf)
+    # in-place editing of the list that is being iterated skips the element after a deletion
+    it_param = maf.params[1] if len(maf.params) > 1 else None
+    for n in own_nodes(maf.node):
+        mutates = (isinstance(n, ast.Delete) and any(isinstance(t, ast.Subscript) and ast.unparse(t.value) == it_param for t in n.targets)) or \
+                  (isinstance(n, ast.Call) and isinstance(n.func, ast.Attribute) and ast.unparse(n.func.value) == it_param and n.func.attr in ("pop", "remove", "insert", "clear"))
+        if mutates:
+            run.report(r, "%s:%s:mutates-iterated-list" % (maf.module.name, maf.qualname), maf.where(n),
+                       "`%s` removes from the list it is iterating: the member following a deleted one is never visited (no enter/leave, "
+                       "edits meant for it are lost)" % norm_stmt(n))
     rets = [n for n in own_nodes(maf.node) if isinstance(n, ast.Return)]
     ok = False
     if len(rets) == 1 and isinstance(rets[0].value, ast.ListComp):
@@ -304,9 +320,9 @@ def check(prog, run):
         txt = ast.unparse(maf.node)
         bad = [w for w in ("sorted(", "reversed(", "set(", "[::-1]") if w in txt]
         if bad or "is not None" not in txt:
-            run.report(r, "py_gql._utils:map_and_filter:shape", maf.where(),
+            run.report(r, "%s:map_and_filter:shape" % maf.module.name, maf.where(),
                        "map_and_filter is not an order-preserving map that drops exactly None results (%s)" % (bad or "filter is not `is not None`"))
-        else:
+        elif not run.findings or not any(f.rule.endswith("V5") for f in run.findings):
             raise AnalysisError("C18.V5: map_and_filter has an unrecognised shape")
 
 
